@@ -36,7 +36,10 @@ IterFails(t) ==
   \cup (IF SumSeq(t.chunks) # want \/ (want > 0 /\ t.bodyOff # t.off) THEN {"IterSlice"} ELSE {})
 StartsWithSeq(s, p) == Len(p) <= Len(s) /\ SubSeq(s, 1, Len(p)) = p
 PathFails(t) ==
-  (IF t.status \notin {200, 403, 404} THEN {"PathStatus"} ELSE {})
+  \* a conditional request (If-Modified-Since not older than the file) may be answered 304, but only for a file inside the root
+  (IF t.status \notin {200, 403, 404} /\
+      ~(t.status = 304 /\ t.ims /\ LET loc == Locate(t.rootSegs, t.nameSegs) IN loc.inside /\ loc.full \in Set(t.files))
+   THEN {"PathStatus"} ELSE {})
   \cup (IF \E i \in 1..Len(t.opened) : ~StartsWithSeq(t.opened[i], t.rootNorm \o <<SLASH>>) THEN {"OpenedOutside"} ELSE {})
   \cup (IF t.status = 200 /\ Len(t.opened) # 1 THEN {"ServedWithoutOpen"} ELSE {})
 PropFails(t) == IF t.kind = "serve" THEN ServeFails(t) ELSE IF t.kind = "iter" THEN IterFails(t) ELSE PathFails(t)
@@ -47,7 +50,7 @@ MechOK(t) ==
      /\ (t.status \in {200, 206} => (r.cl = t.cl /\ r.len = t.bodyLen))
   ELSE IF t.kind = "iter" THEN IterRange(Max2(t.L - t.off, 0), t.n, t.maxread, TRUE) = t.chunks
   ELSE LET loc == Locate(t.rootSegs, t.nameSegs) IN
-       t.status = (IF ~loc.inside THEN 403 ELSE IF loc.full \in Set(t.files) THEN 200 ELSE 404)
+       t.status = (IF ~loc.inside THEN 403 ELSE IF loc.full \in Set(t.files) THEN (IF t.ims THEN 304 ELSE 200) ELSE 404)
 Init == tid \in 1..Len(Traces)
 Next == UNCHANGED tid
 Spec == Init /\ [][Next]_tid
